@@ -151,7 +151,7 @@ def ground_fallback(hyps, goal, timeout_ms):
     return r, (s.model() if r == z3.sat else None)
 
 
-def discharge(ob, z3_timeout_ms=10000, cvc5_timeout_s=30, cross_check=False, expect_sat=False, quick_fail=False):
+def discharge(ob, z3_timeout_ms=10000, cvc5_timeout_s=30, cross_check=False, expect_sat=False, quick_fail=False, cvc5_first=False):
     """sets ob.status in {unsat, sat, unknown}, ob.backend, ob.model (z3 model object kept for replay extraction)"""
     t0 = time.time()
     goal = ob.goal
@@ -175,7 +175,15 @@ def discharge(ob, z3_timeout_ms=10000, cvc5_timeout_s=30, cross_check=False, exp
                 return ob
         except Exception:
             pass
+    if cvc5_first and not expect_sat:
+        # contracts whose VCs carry many quantified hypotheses: cvc5's E-matching decides them in milliseconds where z3 loops
+        cr, ct = run_cvc5(to_smt2(ob.hyps, goal), min(5, cvc5_timeout_s))
+        if cr == "unsat":
+            ob.status, ob.backend, ob.time, ob.cvc5 = "unsat", "cvc5", time.time() - t0, cr
+            return ob
     s = mk(False)
+    if cvc5_first:
+        s.set("timeout", max(1000, z3_timeout_ms // 2))
     r = s.check()
     ob.time = time.time() - t0
     if r == z3.unsat:
